@@ -79,7 +79,9 @@ def run(ctx: Ctx):
                  and any(isinstance(x, ast.Raise) for x in ast.walk(n))]
     t_maps = False
     if chk_loops:
-        ifs = [n for n in walk_no_nested(chk_loops[0]) if isinstance(n, ast.If) and "exchange_map is None" in norm(n.test) and branch_raises(n.body)]
+        ifs = [n for n in walk_no_nested(chk_loops[0]) if isinstance(n, ast.If) and branch_raises(n.body)
+               and isinstance(n.test, ast.Compare) and isinstance(n.test.ops[0], ast.Is) and norm(n.test.left).endswith(".exchange_map")
+               and norm(n.test.comparators[0]) == "None"]
         t_maps = bool(ifs) and cfg.node_of(chk_loops[0]).id in dom[op_node.id]
     ctx.ob("R5.1", f, "pre-flight: `not %s` and `exchange_map is None` for every complete species" % cc, t_empty and t_maps,
            "extrapolating with nothing to map, or before every species' exchange map exists, raises before any file is created",
